@@ -20,8 +20,8 @@ def disk_path(root, slot):
     p = UNI.paths[slot]
     if slot == "tp":
         return os.path.join(root, "R/.venv/lib/python3.11/site-packages/tp/plugin.py")
-    assert p.startswith("/vws/")
-    return os.path.join(root, p[len("/vws/"):])
+    assert p.startswith(R.VWS + "/")
+    return os.path.join(root, p[len(R.VWS + "/"):])
 
 
 def materialise(root, ctx):
@@ -98,7 +98,7 @@ def count_of(info):
 def rel_of_slot(slot):
     if slot == "tp":
         return ".venv/lib/python3.11/site-packages/tp/plugin.py"
-    return UNI.paths[slot][len("/vws/R/"):]
+    return UNI.paths[slot][len(R.VWS + "/R/"):]
 
 
 # decoys present in every materialised tree: unused project fixtures whose names (or directories) differ ONLY IN CASE,
